@@ -757,7 +757,7 @@ def run(ctx):
                 'calls colliding on what a memo could be keyed on (one bump from two windows / both headings / accepted then rejected; one window with two bumps), registry edits (8 forms: new default calendar with holidays / another weekend / both, '
                 'a Calendar object registered, holidays added in place, reset, another key) before and between business-day calls, every realisation of each argument (bump: Python int, numpy ints of every width, array / Series items; '
                 'timedelta, subclass, pandas Timedelta; period strings lower / upper / mixed / signed / str subclass / numpy str_; t0, t1: datetime, subclass, Timestamp, date, datetime64[D, s, us, ns], yyyymmdd int, four string formats) and the same call twice in two realisations of the bump; '
-                'thorough: 800 TLC-simulated sessions of 8 steps - replayed in ONE process in a fixed mixed order, each call == an outcome the law accepts; a seeded sample (thorough: all) of these observations is also validated by Trace_Drange (which reads neither `before` nor `reals` beyond the domain test).')
+                'thorough: 800 TLC-simulated sessions of 8 steps - replayed in ONE process in a fixed mixed order, each call == an outcome the law accepts; a seeded sample (2 500 quick / 30 000 thorough; simulated sessions: all) of these observations is also validated by Trace_Drange (which reads neither `before` nor `reals` beyond the domain test).')
     ctx.mc('MC_Drange', 'MC_Drange_quick.cfg' if ctx.quick else 'MC_Drange_thorough.cfg')
     _timeouts[:] = [0, 0.0, SLOW_BUDGET_S['quick' if ctx.quick else 'thorough']]
     ctx.mc('MC_DrangeSession', 'MC_DrangeSession_quick.cfg' if ctx.quick else 'MC_DrangeSession_thorough.cfg')
@@ -767,7 +767,7 @@ def run(ctx):
     try:
         s2c_histories(ctx, ctx.generate('MC_Drange', 'MC_Drange_genH.cfg'))
         ok = s2c_sessions(ctx, ctx.generate('MC_DrangeSession', 'MC_DrangeSession_gen.cfg' if ctx.quick else 'MC_DrangeSession_gen2.cfg'),
-                          'scripts', 2500 if ctx.quick else None)
+                          'scripts', 2500 if ctx.quick else 30000)
         if ok and not ctx.quick:
             sim = ctx.generate('MC_DrangeSession', 'MC_DrangeSession_sim.cfg', simulate=800, depth=9, seed=ctx.seed + 10, workers=1)
             ok = s2c_sessions(ctx, sim, 'simulated', None)
